@@ -738,6 +738,45 @@ with norm_dset (X : ext) (d : dset) : dset :=
   | DCons t vr v tl => DCons t vr (norm_value X vr v) (norm_dset X tl)
   end.
 
+(** Canonical data sets: the form the deserialiser produces. On these the
+    normalisation is the identity, so the round trip returns the data set itself. *)
+Fixpoint last_is (f : N -> bool) (s : str) : bool :=
+  match s with [] => false | [c] => f c | _ :: r => last_is f r end.
+Definition canon_text (s : str) : bool := negb (last_is is_pad s) && no_charb backslash s.
+Definition canon_name (s : str) : bool := canon_text s && negb (last_is (N.eqb 61) s).
+Definition canon_prim (vr : vrT) (p : prim) : bool :=
+  match p with
+  | PEmpty => negb (vr_eqb vr V_SQ)
+  | _ =>
+      match vr_class vr with
+      | CStr => match p with PStrs l => negb (is_nil l) && forallb canon_text l | _ => false end
+      | CPN => match p with PStrs l => negb (is_nil l) && forallb canon_name l | _ => false end
+      | CAT => match p with PTags l => negb (is_nil l) | _ => false end
+      | CBin => match p with
+                | PInt KU8 l => negb (is_nil l) && forallb (in_kind KU8) l
+                | _ => false end
+      | CSeq => false
+      | CNum =>
+          match vr, p with
+          | V_FL, PF32 l => negb (is_nil l) && forallb (fun b => negb (f32_is_nan b) || (b =? f32_nan)) l
+          | V_FD, PF64 l => negb (is_nil l) && forallb (fun b => negb (f64_is_nan b) || (b =? f64_nan)) l
+          | (V_DS | V_IS), PStrs l => negb (is_nil l)
+          | _, PInt k l => negb (is_nil l) && match vr_ikind vr with Some kv => ikind_eqb k kv | None => false end
+          | _, _ => false
+          end
+      end
+  end.
+Fixpoint canon_value (vr : vrT) (v : value) : bool :=
+  match v with
+  | VPrim p => canon_prim vr p
+  | VSeq it => canon_items it
+  | VPix => true
+  end
+with canon_items (it : items) : bool :=
+  match it with INil => true | ICons d tl => canon_dset d && canon_items tl end
+with canon_dset (d : dset) : bool :=
+  match d with DNil => true | DCons _ vr v tl => canon_value vr v && canon_dset tl end.
+
 (** Hypotheses of the Annex F conformance theorem (C24): well-formed, person names
     have at most three component groups (two '='), and a UL element held as
     64-bit integers only has values that the serialiser writes as numbers. *)
@@ -790,15 +829,15 @@ Definition ext_of (t32 t64 : list (N * str)) (p32 p64 : list (str * option N)) :
 
 Inductive jcase :=
 (* a data set, what to_value returned, what from_value of that returned, verdict of the harness' Annex F
-   validator, whether the harness counts the data set as inside the hypotheses of C23_rt / of C24_conforms *)
-| CaseRT (X : ext) (d : dset) (out : outcome json) (back : outcome dset) (annexf : bool) (wf : bool) (conf : bool)
+   validator, whether the harness counts the data set as inside the hypotheses of C23_rt / of C24_conforms / as canonical (C23_rt_exact) *)
+| CaseRT (X : ext) (d : dset) (out : outcome json) (back : outcome dset) (annexf : bool) (wf : bool) (conf : bool) (canon : bool)
 (* a JSON document (printed to text by the harness) and what from_str returned *)
 | CaseDe (X : ext) (j : json) (got : outcome dset).
 
 Definition check_case (c : jcase) : bool :=
   match c with
-  | CaseRT X d out back _ wf _ =>
-      Bool.eqb (wf_dset d) wf &&
+  | CaseRT X d out back _ wf _ canon =>
+      Bool.eqb (wf_dset d) wf && Bool.eqb (canon_dset d) canon &&
       outcome_eqb json_eqb (ser X d) out &&
       match out with
       | Ok j => outcome_eqb dset_eqb (de X j) back && outcome_eqb dset_eqb (de_text X j) back
